@@ -461,6 +461,11 @@ impl Device {
             if (0x0900..0x0a00).contains(&x) && !self.dc_supported {
                 continue;
             }
+            // Port receive times and the processing unit receive time are latches: a write triggers
+            // latching, the written data is not stored.
+            if (REG_DC_PORT0..REG_DC_PORT0 + 16).contains(&x) || (REG_DC_RECV..REG_DC_RECV + 8).contains(&x) {
+                continue;
+            }
             self.mem[x] = *b;
         }
         if a <= REG_AL_CONTROL + 1 && a + len > REG_AL_CONTROL {
